@@ -18,42 +18,42 @@ def ADD(a, b):
 
 # (function suffix, unsafe callee name, ordinal) -> dict(guard, G (expected guard size or None=any), expect: {arg index: expr with {G}})
 UNSAFE_SITES = [
-    dict(fn='<' + SI + 'peek_byte', op='get_unchecked', guard='does_buffer_have_at_least', G='1', expect={1: 'arg1.pos'},
+    dict(fn='<' + SI + 'peek_byte', op='get_unchecked', guard='@remaining', G='1', expect={1: 'arg1.pos'},
          why='one byte at pos after checking that at least one byte remains'),
-    dict(fn=SII + 'peek_byte_slice_exact_impl', op='get_unchecked', guard='does_buffer_have_at_least', G=None,
+    dict(fn=SII + 'peek_byte_slice_exact_impl', op='get_unchecked', guard='@remaining', G=None,
          expect={0: 'arg1.buffer', 1: 'Range::Range{start:arg1.pos,end:ADD(arg1.pos,{G})}'}, why='pos..pos+count after checking count bytes remain'),
     dict(fn=SII + 'peek_bytes_exact_impl', op='unwrap_unchecked', guard='peek_byte_slice_exact_impl', G='const<usize>',
          expect={0: 'try_into(peek_byte_slice_exact_impl(arg1,const<usize>) as Continue.0)'}, why='slice of exactly N bytes converted to &[u8; N] (same const generic N)'),
     dict(fn='<' + SI + 'read_bytes_into_exact', op='copy_nonoverlapping', guard='read_byte_slice_exact', G='len(arg2)',
          expect={0: 'as_ptr(read_byte_slice_exact(arg1,len(arg2)) as Continue.0)', 1: 'as_mut_ptr(arg2)', 2: '{G}'}, why='copies dst.len() bytes from a source slice of exactly dst.len() bytes'),
-    dict(fn='<' + SO + 'write_byte', op='get_unchecked_mut', guard='does_buffer_have_at_least', G='1', expect={0: 'arg1.buffer', 1: 'arg1.pos'},
+    dict(fn='<' + SO + 'write_byte', op='get_unchecked_mut', guard='@remaining', G='1', expect={0: 'arg1.buffer', 1: 'arg1.pos'},
          why='one byte at pos after checking that at least one byte of space remains'),
-    dict(fn='<' + SO + 'write_bytes_exact', op='get_unchecked_mut', guard='does_buffer_have_at_least', G='len(arg2)',
+    dict(fn='<' + SO + 'write_bytes_exact', op='get_unchecked_mut', guard='@remaining', G='len(arg2)',
          expect={0: 'arg1.buffer', 1: 'Range::Range{start:arg1.pos,end:ADD(arg1.pos,{G})}'}, why='pos..pos+len after checking len bytes of space remain'),
-    dict(fn='<' + SO + 'write_bytes_exact', op='copy_nonoverlapping', guard='does_buffer_have_at_least', G='len(arg2)',
+    dict(fn='<' + SO + 'write_bytes_exact', op='copy_nonoverlapping', guard='@remaining', G='len(arg2)',
          expect={0: 'as_ptr(arg2)', 1: 'as_mut_ptr(get_unchecked_mut(arg1.buffer,Range::Range{start:arg1.pos,end:ADD(arg1.pos,{G})}))', 2: '{G}'},
          why='copies len bytes into the checked target range of the same length'),
     dict(fn='<' + SO + 'write_bytes_into_reserved_exact', op='copy_nonoverlapping', guard='get_mut', G='range(arg2)',
          expect={0: 'as_ptr(arg3)', 1: 'as_mut_ptr(get_mut(arg1.buffer,range(arg2)) as Some.0)', 2: 'len(arg3)'}, lt_guard=('len(get_mut(arg1.buffer,range(arg2)) as Some.0)', 'len(arg3)'),
          why='copies into the reservation\'s own slice after checking it is at least as long as the bytes'),
-    dict(fn='<' + VO + 'write_byte', op='get_unchecked_mut', guard='ensure_buffer_has_at_least', G='1', expect={0: 'spare_capacity_mut(arg1.buffer)', 1: '0'},
+    dict(fn='<' + VO + 'write_byte', op='get_unchecked_mut', guard='@reserve', G='1', expect={0: 'spare_capacity_mut(arg1.buffer)', 1: '0'},
          why='first spare byte after ensuring one byte of capacity'),
-    dict(fn='<' + VO + 'write_byte', op='set_len', guard='ensure_buffer_has_at_least', G='1', expect={0: 'arg1.buffer', 1: 'ADD({G},len(arg1.buffer))'},
+    dict(fn='<' + VO + 'write_byte', op='set_len', guard='@reserve', G='1', expect={0: 'arg1.buffer', 1: 'ADD({G},len(arg1.buffer))'},
          why='length grows by exactly the one byte written'),
-    dict(fn='<' + VO + 'write_bytes_exact', op='get_unchecked_mut', guard='ensure_buffer_has_at_least', G='len(arg2)',
+    dict(fn='<' + VO + 'write_bytes_exact', op='get_unchecked_mut', guard='@reserve', G='len(arg2)',
          expect={0: 'spare_capacity_mut(arg1.buffer)', 1: 'RangeTo::RangeTo{end:{G}}'}, why='first len spare bytes after ensuring len bytes of capacity'),
-    dict(fn='<' + VO + 'write_bytes_exact', op='copy_nonoverlapping', guard='ensure_buffer_has_at_least', G='len(arg2)',
+    dict(fn='<' + VO + 'write_bytes_exact', op='copy_nonoverlapping', guard='@reserve', G='len(arg2)',
          expect={1: 'as_mut_ptr(get_unchecked_mut(spare_capacity_mut(arg1.buffer),RangeTo::RangeTo{end:{G}}))', 2: '{G}'}, why='copies len bytes into the ensured spare capacity'),
-    dict(fn='<' + VO + 'write_bytes_exact', op='set_len', guard='ensure_buffer_has_at_least', G='len(arg2)', expect={0: 'arg1.buffer', 1: 'ADD({G},len(arg1.buffer))'},
+    dict(fn='<' + VO + 'write_bytes_exact', op='set_len', guard='@reserve', G='len(arg2)', expect={0: 'arg1.buffer', 1: 'ADD({G},len(arg1.buffer))'},
          why='length grows by exactly the bytes copied'),
     dict(fn='<' + VO + 'write_bytes_into_reserved_exact', op='copy_nonoverlapping', guard='get_mut', G='range(arg2)',
          expect={0: 'as_ptr(arg3)', 1: 'as_mut_ptr(get_mut(arg1.buffer,range(arg2)) as Some.0)', 2: 'len(arg3)'}, lt_guard=('len(get_mut(arg1.buffer,range(arg2)) as Some.0)', 'len(arg3)'),
          why='copies into the reservation\'s own slice after checking it is at least as long as the bytes'),
-    dict(fn='<' + VO + 'reserve_space', op='add', guard='ensure_buffer_has_at_least', G='arg2', expect={0: 'as_mut_ptr(arg1.buffer)', 1: 'len(arg1.buffer)'},
+    dict(fn='<' + VO + 'reserve_space', op='add', guard='@reserve', G='arg2', expect={0: 'as_mut_ptr(arg1.buffer)', 1: 'len(arg1.buffer)'},
          why='pointer to the first spare byte'),
-    dict(fn='<' + VO + 'reserve_space', op='write_bytes', guard='ensure_buffer_has_at_least', G='arg2',
+    dict(fn='<' + VO + 'reserve_space', op='write_bytes', guard='@reserve', G='arg2',
          expect={0: 'add(as_mut_ptr(arg1.buffer),len(arg1.buffer))', 1: '0', 2: '{G}'}, why='zeroes exactly the ensured count of spare bytes'),
-    dict(fn='<' + VO + 'reserve_space', op='set_len', guard='ensure_buffer_has_at_least', G='arg2', expect={0: 'arg1.buffer', 1: 'ADD({G},len(arg1.buffer))'},
+    dict(fn='<' + VO + 'reserve_space', op='set_len', guard='@reserve', G='arg2', expect={0: 'arg1.buffer', 1: 'ADD({G},len(arg1.buffer))'},
          why='length grows by exactly the zeroed count'),
     dict(fn='slice_codec::decoding::<impl slice_codec::decode_from::DecodeFrom for alloc::string::String>::decode_from', op='set_len', guard='read_bytes_into_exact',
          G='spare_capacity_mut(new())', guard2=('try_reserve_exact', 'decode_varuint(arg1) as Continue.0'), expect={0: 'new()', 1: 'decode_varuint(arg1) as Continue.0'},
@@ -104,6 +104,40 @@ def _subst(pattern, G):
     return s
 
 
+def bounds_guards(prog):
+    """The private capacity checks of the buffer types, found by what they do rather than by their names. Returns name -> kind:
+    'remaining': a two-parameter function returning Result<()> that builds UnexpectedEob{requested: its argument} exactly under
+                 remaining(self) < argument (and is Ok otherwise);
+    'reserve':   a two-parameter function returning Result<()> whose result is buffer.try_reserve(argument) with the error mapped."""
+    if getattr(prog, '_bounds_guards', None) is not None:
+        return prog._bounds_guards
+    import guards as _g
+    out = {}
+    for f in prog.fns.values():
+        if f.crate.tag != 'slice_codec' or not f.path.startswith('slice_codec::buffer::') or '{closure' in f.path or f.argc != 2:
+            continue
+        if not (f.raw.get('output') or '').startswith('core::result::Result<()'):
+            continue
+        eobs = [a for a in aggregates(prog, 'slice_codec::error::ErrorKind', 'UnexpectedEob', crates=('slice_codec',)) if a['fn'] is f]
+        if eobs and all(_g.canon('Lt(remaining(arg1),arg2)') in [_g.canon(x) for x in _g.guard_set(prog, f, a['bb'])]
+                        and vexpr(f, {'cp': a['lhs']}).startswith('ErrorKind::UnexpectedEob{requested:arg2,') for a in eobs):
+            out[f.name] = 'remaining'
+            continue
+        tr = [c for c in f.calls() if c.name() == 'try_reserve' and not f.blocks[c.bb].get('cleanup')]
+        ret = vexpr(f, {'cp': {'l': 0}}, depth=6)
+        if len(tr) == 1 and [vexpr(f, a) for a in tr[0].args] == ['arg1.buffer', 'arg2'] and re.match(r'^map_err\(try_reserve\(arg1\.buffer,arg2\),', ret):
+            out[f.name] = 'reserve'
+    prog._bounds_guards = out
+    return out
+
+
+def _is_guard(prog, name, want):
+    """want: '@remaining' / '@reserve' (a capacity check of that kind, whatever it is called) or a plain function name"""
+    if want.startswith('@'):
+        return bounds_guards(prog).get(name) == want[1:]
+    return name == want
+
+
 def r_unsafe_sites(r, prog):
     calls = unsafe_calls(prog)
     used = set()
@@ -120,7 +154,7 @@ def r_unsafe_sites(r, prog):
         e = UNSAFE_SITES[cands[0]]
         used.add(cands[0])
         key = '%s:%s' % (f.path, nm)
-        guards = [g for g in f.calls() if g.name() == e['guard'] and g is not c]
+        guards = [g for g in f.calls() if _is_guard(prog, g.name(), e['guard']) and g is not c]
         good = None
         problems = []
         for g in guards:
@@ -246,7 +280,7 @@ def io_methods(prog):
             for m in i['methods']:
                 if m['path'] in prog.fns:
                     out.append(prog.fns[m['path']])
-    out += [f for f in prog.fns.values() if f.crate.tag == 'slice_codec' and re.search(r'::(peek_\w+_impl|does_buffer_have_at_least)$', f.path)]
+    out += [f for f in prog.fns.values() if f.crate.tag == 'slice_codec' and re.search(r'::(peek_\w+_impl)$', f.path) or (f.path.startswith('slice_codec::buffer::') and bounds_guards(prog).get(f.name) == 'remaining' and '{closure' not in f.path)]
     return out
 
 
@@ -277,7 +311,7 @@ def r_failure_leaves_no_trace(r, prog):
 
 
 def r_peek_never_consumes(r, prog):
-    ms = [f for f in io_methods(prog) if re.search(r'::(peek_\w+|remaining|does_buffer_have_at_least)$', f.path)]
+    ms = [f for f in io_methods(prog) if re.search(r'::(peek_\w+|remaining)$', f.path) or bounds_guards(prog).get(f.name) == 'remaining']
     if len(ms) < 6:
         raise AnchorMissing('peek/remaining methods (found %d)' % len(ms))
     for f in ms:
@@ -295,13 +329,13 @@ def r_read_advances_by_checked_count(r, prog):
         ('<' + SI + 'read_byte', 'peek_byte', None, '1'),
         ('<' + SI + 'read_bytes_exact', 'peek_bytes_exact_impl', None, 'const<usize>'),
         ('<' + SI + 'read_byte_slice_exact', 'peek_byte_slice_exact_impl', -1, None),
-        ('<' + SO + 'write_byte', 'does_buffer_have_at_least', -1, None),
-        ('<' + SO + 'write_bytes_exact', 'does_buffer_have_at_least', -1, None),
-        ('<' + SO + 'reserve_space', 'does_buffer_have_at_least', -1, None),
+        ('<' + SO + 'write_byte', '@remaining', -1, None),
+        ('<' + SO + 'write_bytes_exact', '@remaining', -1, None),
+        ('<' + SO + 'reserve_space', '@remaining', -1, None),
     ]
     for fp, guard, gi, fixed in table:
         f = prog.fn(fp)
-        gs = [c for c in f.calls() if c.name() == guard]
+        gs = [c for c in f.calls() if _is_guard(prog, c.name(), guard)]
         if not gs:
             r.finding('no-check:%s' % fp, f.span, '%s no longer calls %s before advancing' % (fp, guard))
             continue
